@@ -504,7 +504,7 @@ theorem C27_table_source_shape :
       "if not _VALID_IDENTIFIER.match(name): msg = f'Invalid SQL identifier: {name!r}' raise ValueError(msg) ; return f'\"{name}\"'" ∧
     GenJournalTable.qualifiedTableRefBody =
       "ref = _quote_identifier(table_name) ; if schema: ref = f'{_quote_identifier(schema)}.{ref}' ; return ref" := by
-  decide
+  and_intros <;> rfl
 
 /-! ## continuation after any number of stops; the orphan purge over a whole life -/
 
